@@ -101,7 +101,7 @@ def _vstack(arrs):
 
 @rule(
     "GEN-TABLES",
-    ["C03", "C02", "C08", "C05"],
+    ["C03", "C02", "C08", "C05", "C19"],
     "build_optimized_tables interpreted on sample modified terminals with a table oracle that records which points were tabulated: "
     "permutation slices are the tables at the reference-facet symmetries in the order N = 2*rotations + reflections exactly where "
     "facets lack a global orientation; point / entity / permutation axes are collapsed exactly when constant; the \"-\" dof shift "
@@ -272,3 +272,37 @@ def gen_tables(repo, res):
         fail_tables(key, f"an element on a cell of codimension 3 is accepted by build_optimized_tables (result {str(out)[:60]}): only codimension 0, 1 and 2 are implemented", loc)
     except Raised:
         pass
+
+    # interior facets of a prism / pyramid: the facet symmetries are not implemented - the request must be rejected; tables that silently keep
+    # one permutation slice would make the result depend on the neighbours' vertex numbering
+    for cname in ("prism", "pyramid"):
+        key = f"{f.key}:interior-facet-permutations-on-{cname}-rejected"
+        res.ob(key)
+        it = install_arrays(Interp(repo, load_classes(repo), primary=ET))
+        it.overrides["np.vstack"] = _PyCall(_vstack)
+        it.overrides["clamp_table_small_numbers"] = _PyCall(lambda t, **k: t)
+        pc = cell(cname, 3)
+        vmt = [mt("u+", element(0, "varying", 3, pc), "+"), mt("u-", element(0, "varying", 3, pc), "-")]
+        it.overrides["get_modified_terminal_element"] = _PyCall(lambda t: (t.f["el"], t.f["avg"], t.f["ld"], t.f["fc"]))
+        it.overrides["ufl.algorithms.sort_elements"] = _PyCall(lambda els: list(els))
+        it.overrides["ufl.algorithms.analysis.extract_sub_elements"] = _PyCall(lambda els: list(els))
+        it.overrides["default_rtol"] = 0
+        it.overrides["default_atol"] = 0
+
+        def values(points, cell_, itype, el, avg, etype, ld, fc, codim=0, **k):
+            pl = points.tolist() if hasattr(points, "tolist") else list(points)
+            return {"array": NDArr([[[[Fr(7 * e_ + d_ + 1) + sum((Fr(x) for x in pt_), Fr(0)) * (q_ + 2) for d_ in range(3)] for q_, pt_ in enumerate(pl)] for e_ in range(2)]],
+                                   (1, 2, len(pl), 3)), "offset": 0, "stride": 1}
+        it.overrides["get_ffcx_table_values"] = _PyCall(values)
+        rule_ = Node("QuadratureRule", points=NDArr(pts2, (3, 2)), weights=[Fr(1, 3)] * 3, has_tensor_factors=False, tensor_factors=None, id=_PyCall(lambda: "r0"))
+        try:
+            out = it.call_f(f, [rule_, pc, "interior_facet", "facet", vmt, {}, False, False])
+        except Raised:
+            continue
+        shapes = {k_.f["name"]: tuple(v_.f["values"].shape) for k_, v_ in out.items()} if isinstance(out, dict) else None
+        if shapes is None or any(sh[0] == 1 for sh in shapes.values()):
+            _fail(key, f"an interior-facet integral on a {cname} is accepted and its point-dependent tables keep a single permutation slice ({shapes}): the kernel ignores "
+                       "quadrature_permutation, so the two sides' quadrature points do not coincide unless the cells happen to be numbered alike - unsupported cells must be "
+                       "rejected during code generation", loc, props=("C19", "C03"))
+        else:
+            raise AnalysisError(f"GEN-TABLES: facet permutations on a {cname} are now implemented ({shapes}); extend the rule with its facet symmetries")
